@@ -20,6 +20,7 @@ import (
 	"testing"
 	"time"
 
+	"github.com/golang/protobuf/proto"
 	"github.com/robustirc/robustirc/internal/config"
 	"github.com/robustirc/robustirc/internal/ircserver"
 	"github.com/robustirc/robustirc/internal/robust"
@@ -158,7 +159,15 @@ func TestVerifC15HTTP(t *testing.T) {
 				ClientMessageId uint64
 			}{d, cm + 1})
 			cm++
-			code, _, _ := c.postRaw(att, body)
+			var code int
+			if (int(cm)+r)%3 == 0 {
+				// through a trusted bridge (X-Bridge-Auth of the configuration, X-Forwarded-For): what
+				// such a bridge forwards is still the text of its users
+				code, _, _ = c.postFrom(att, d, cm, "192.0.2.33")
+				rep.Obs("http.posts-through-a-trusted-bridge", 1)
+			} else {
+				code, _, _ = c.postRaw(att, body)
+			}
 			if code == 200 {
 				accepted++
 			}
@@ -223,6 +232,7 @@ func c16Bodies(rng *rand.Rand, seed int64) []c16Body {
 		c16Body{"", true, "valid-empty"},
 		c16Body{"SessionExpiration = \"5m\"\nMaxSessions = 3\n", true, "valid-small"},
 		c16Body{"PostMessageCooloff = \"250ms\"\nMaxChannels = 9\n", true, "valid-no-expiration"},
+		c16Body{c16LargeConfig(), true, "valid-large"},
 		c16Body{"SessionExpiration = \"10m\"\n[Banned]\n\"10.9.9.9\" = \"manual ban\"\n", true, "valid-with-ban"},
 		c16Body{"SessionExpiration = \"30m\n", false, "syntax"},
 		c16Body{"[IRC\nOperators = 3", false, "syntax"},
@@ -233,6 +243,17 @@ func c16Bodies(rng *rand.Rand, seed int64) []c16Body {
 	)
 	rng.Shuffle(len(out), func(a, b int) { out[a], out[b] = out[b], out[a] })
 	return out
+}
+
+// c16LargeConfig is a configuration of about 70 kB (a long ban list); what matters comes last.
+func c16LargeConfig() string {
+	var b strings.Builder
+	b.WriteString("SessionExpiration = \"20m\"\nMaxChannels = 77\n[Banned]\n")
+	for i := 0; i < 2600; i++ {
+		fmt.Fprintf(&b, "\"198.51.%d.%d\" = \"listed\"\n", i/250, i%250)
+	}
+	b.WriteString("\"192.0.2.77\" = \"the last ban of a long list\"\n[WhitelistedOrigins]\n\"https://webchat.example.com\" = true\n")
+	return b.String()
 }
 
 func cfgEqual(a, b config.Network) bool {
@@ -491,6 +512,31 @@ func TestVerifC16(t *testing.T) {
 				}
 				rep.Case(fmt.Sprintf("oper-probe|%v|%v", configured, isOper))
 			}
+		}
+		// an unparsable Config entry in the log (the handler never proposes one; a node of another
+		// version, or a damaged entry, could): every node skips it, nothing changes, the revision
+		// in force stays and the next update with that revision is accepted
+		{
+			_, bodyBefore, revBefore := c.getConfig(n.password)
+			m := robust.Message{Type: robust.Config, Data: "SessionExpiration = \"30m\nMaxSessions = [", Revision: rev + 1, UnixNano: time.Now().UnixNano()}
+			var raw []byte
+			if verifStoreProto {
+				b, _ := proto.Marshal(m.ProtoMessage())
+				raw = append([]byte{'p'}, b...)
+			} else {
+				raw, _ = json.Marshal(&m)
+			}
+			if err := n.raft.Apply(raw, 10*time.Second).Error(); err != nil {
+				rep.Broken("raft.Apply: " + err.Error())
+				return
+			}
+			waitApplied(n)
+			_, body, grev := c.getConfig(n.password)
+			if grev != revBefore || body != bodyBefore || ircServer.VerifView().Config.Revision != rev {
+				viol("unparsable-entry-changed-config", fmt.Sprintf("an unparsable Config entry (revision field %d) in the log changed what is in force: revision %q -> %q (state machine: %d), body changed: %v", rev+1, revBefore, grev, ircServer.VerifView().Config.Revision, body != bodyBefore))
+			}
+			rep.Case("unparsable-config-entry")
+			rep.Obs("unparsable-config-entries-applied", 1)
 		}
 		// every fourth round the node is restarted from a snapshot taken while there is no ban
 		// at all, and the first GLINE comes after that
